@@ -129,6 +129,37 @@ func loopProgress(p *Prog, fn *ssa.Function, h *ssa.BasicBlock, body map[*ssa.Ba
 			}
 		}
 	}
+	// cycle walk: x = m[x] over the edge map that collectCycle filled, until x is back at the start. The invariant (every
+	// value of the map is again a key, the keys form one cycle that contains the start) is what C18.CYCLE and
+	// C09.CYCLESTART establish; here only the shape and the provenance of the map are checked, wherever the loop lives.
+	for b := range body {
+		for _, in := range b.Instrs {
+			lk, ok := in.(*ssa.Lookup)
+			if !ok || lk.CommaOk {
+				continue
+			}
+			mt, ok := lk.X.Type().Underlying().(*types.Map)
+			if !ok || !types.Identical(mt.Key(), mt.Elem()) {
+				continue
+			}
+			if _, isPtr := mt.Key().(*types.Pointer); !isPtr {
+				continue
+			}
+			feeds := false
+			for _, hin := range h.Instrs {
+				if ph, ok := hin.(*ssa.Phi); ok {
+					for _, e := range ph.Edges {
+						if e == ssa.Value(lk) {
+							feeds = true
+						}
+					}
+				}
+			}
+			if feeds && edgeMapOfCollectCycle(p, fn, lk.X, 0) {
+				return "cycle walk x = m[x] over the edge map filled by collectCycle: its values are keys again and its keys form one cycle through the start (C18.CYCLE, C09.CYCLESTART)"
+			}
+		}
+	}
 	// (1) counter
 	for _, in := range h.Instrs {
 		ph, ok := in.(*ssa.Phi)
@@ -351,6 +382,30 @@ func strictSuffixOf(v ssa.Value, ph ssa.Value, fn *ssa.Function, body map[*ssa.B
 		}
 	case *ssa.Extract:
 		if call, ok := x.Tuple.(*ssa.Call); ok {
+			// the part after a non-empty separator that Cut found: at least the separator was removed. "found" has to lead
+			// out of the loop when it is false (otherwise the remainder is the empty string and the value read is `before`)
+			if n := calleeFullName(&call.Call); (n == "strings.Cut" || n == "bytes.Cut") && x.Index == 1 && suffixOrSame(call.Call.Args[0], ph, depth+1) {
+				sepNonEmpty := false
+				if sep, ok := constString(call.Call.Args[1]); ok && sep != "" {
+					sepNonEmpty = true
+				}
+				if mi, ok := call.Call.Args[1].(*ssa.Convert); ok {
+					if sep, ok := constString(mi.X); ok && sep != "" {
+						sepNonEmpty = true
+					}
+				}
+				if sepNonEmpty {
+					for _, ref := range *call.Referrers() {
+						if fx, ok := ref.(*ssa.Extract); ok && fx.Index == 2 {
+							for _, r2 := range *fx.Referrers() {
+								if ifi, ok := r2.(*ssa.If); ok && !body[ifi.Block().Succs[1]] {
+									return true
+								}
+							}
+						}
+					}
+				}
+			}
 			return suffixResult(call, x.Index, ph)
 		}
 	case *ssa.Call:
@@ -789,4 +844,42 @@ func derivedFromParam(v ssa.Value, params map[ssa.Value]bool, depth int, seen ma
 		return best
 	}
 	return 0
+}
+
+// edgeMapOfCollectCycle: m is a map handed to collectCycle in fn, or a parameter of fn that receives such a map from every
+// caller.
+func edgeMapOfCollectCycle(p *Prog, fn *ssa.Function, m ssa.Value, depth int) bool {
+	if depth > 2 {
+		return false
+	}
+	for _, cc := range findCalls(fn, "collectCycle") {
+		for _, a := range cc.Common().Args {
+			if a == m {
+				return true
+			}
+		}
+	}
+	prm, ok := m.(*ssa.Parameter)
+	if !ok {
+		return false
+	}
+	idx := -1
+	for i, q := range fn.Params {
+		if q == prm {
+			idx = i
+		}
+	}
+	callers := p.callersOf(fn)
+	if idx < 0 || len(callers) == 0 {
+		return false
+	}
+	for _, e := range callers {
+		if e.Site == nil || e.Site.Common().IsInvoke() || idx >= len(e.Site.Common().Args) {
+			return false
+		}
+		if !edgeMapOfCollectCycle(p, e.Caller.Func, e.Site.Common().Args[idx], depth+1) {
+			return false
+		}
+	}
+	return true
 }
